@@ -283,13 +283,20 @@ def ordinal(n: int) -> str:
             return '%dth' % n
 
 
+# Lexical space of xs:double/xs:float without the special values: Python's float()
+# also accepts underscores between digits and non-ASCII decimal digits.
+DOUBLE_LEXICAL_PATTERN = re.compile(
+    r'[+-]?(?:[0-9]+(?:\.[0-9]*)?|\.[0-9]+)(?:[eE][+-]?[0-9]+)?'
+)
+
+
 def get_double(value: FloatArgType, xsd_version: str | None = None) -> float:
     if isinstance(value, str):
         value = collapse_white_spaces(value)
         if value in NUMERIC_INF_OR_NAN and (xsd_version != '1.0' or value != '+INF'):
             if value == 'NaN':
                 return math.nan  # for NaN use the predefined instance to keep identity
-        elif value.lower() in INVALID_NUMERIC:
+        elif value.lower() in INVALID_NUMERIC or DOUBLE_LEXICAL_PATTERN.fullmatch(value) is None:
             raise ValueError(f'invalid value {value!r} for xs:double/xs:float')
     elif math.isnan(value):
         return math.nan
